@@ -24,6 +24,7 @@ import (
 	"verif/props/c13"
 	"verif/props/c16"
 	"verif/props/c17"
+	"verif/props/c20"
 )
 
 type prop struct {
@@ -46,6 +47,7 @@ var props = map[string]prop{
 	"C13": {"exploration", c13.Run, c13.Replay},
 	"C16": {"model_checking", c16.Run, c16.Replay},
 	"C17": {"exploration", c17.Run, c17.Replay},
+	"C20": {"exploration", c20.Run, c20.Replay},
 }
 
 var ballast []byte
